@@ -1,24 +1,1 @@
-import DadiVerif.Props.C01
-import DadiVerif.Driver.Integ
-import DadiVerif.Props.C02
-import DadiVerif.Props.C03
-import DadiVerif.Props.C04
-import DadiVerif.Props.C06
-import DadiVerif.Driver.Admix
-import DadiVerif.Props.C07
-import DadiVerif.Driver.Extrap
-import DadiVerif.Props.C08
-import DadiVerif.Driver.Projection
-import DadiVerif.Props.C09
-import DadiVerif.Driver.Fold
-import DadiVerif.Props.C10
-import DadiVerif.Driver.PopOps
-import DadiVerif.Props.C11
-import DadiVerif.Driver.Likelihood
-import DadiVerif.Props.C14
-import DadiVerif.Driver.FileFormat
-import DadiVerif.Props.C18
-import DadiVerif.Driver.LowPass
-import DadiVerif.Props.C19
-import DadiVerif.Driver.Godambe
-import DadiVerif.Props.C20
+import DadiVerif.Model.Prelude
